@@ -15,6 +15,7 @@ import (
 
 func init() {
 	register(&PropertyCheck{ID: "C17", Level: "other", Run: checkC17, Canaries: []Canary{
+		{Name: "subscribe-limited-to-1024-filters", Rule: "R17.1", Where: "Subscribe", Edits: []Edit{{"subscribe.go", "type Subscribe struct {\n\tfixed          bits\n\tpacketID       wuint16\n\tsubscriptionID *vbint\n\tUserProperties\n\tfilters []TopicFilter\n}\n\nfunc (p *Subscribe) String() string {\n\treturn withForm(p, fmt.Sprintf(\"%s p%v %s %v bytes\",\n\t\tfirstByte(p.fixed).String(),\n\t\tp.packetID,\n\t\tp.filterString(),\n\t\tp.width(),\n\t))\n}\n\nfunc (p *Subscribe) WellFormed() *Malformed {\n\tif len(p.filters) == 0 {\n\t\treturn newMalformed(p, \"filters\", \"no\")", "// maxFilters is the number of topic filters accepted in one\n// subscribe packet.\nconst maxFilters = 1024\n\ntype Subscribe struct {\n\tfixed          bits\n\tpacketID       wuint16\n\tsubscriptionID *vbint\n\tUserProperties\n\tfilters []TopicFilter\n}\n\nfunc (p *Subscribe) String() string {\n\treturn withForm(p, fmt.Sprintf(\"%s p%v %s %v bytes\",\n\t\tfirstByte(p.fixed).String(),\n\t\tp.packetID,\n\t\tp.filterString(),\n\t\tp.width(),\n\t))\n}\n\nfunc (p *Subscribe) WellFormed() *Malformed {\n\tif len(p.filters) == 0 {\n\t\treturn newMalformed(p, \"filters\", \"no\")\n\t}\n\tif len(p.filters) > maxFilters {\n\t\treturn newMalformed(p, \"filters\", \"too many\")"}}},
 		{Name: "subscribe-limited-to-32-filters", Rule: "R17.1", Where: "Subscribe", Edits: []Edit{{"subscribe.go", "type Subscribe struct {\n\tfixed          bits\n\tpacketID       wuint16\n\tsubscriptionID *vbint\n\tUserProperties\n\tfilters []TopicFilter\n}\n\nfunc (p *Subscribe) String() string {\n\treturn withForm(p, fmt.Sprintf(\"%s p%v %s %v bytes\",\n\t\tfirstByte(p.fixed).String(),\n\t\tp.packetID,\n\t\tp.filterString(),\n\t\tp.width(),\n\t))\n}\n\nfunc (p *Subscribe) WellFormed() *Malformed {\n\tif len(p.filters) == 0 {\n\t\treturn newMalformed(p, \"filters\", \"no\")", "// maxFilters is the number of topic filters accepted in one\n// subscribe packet.\nconst maxFilters = 32\n\ntype Subscribe struct {\n\tfixed          bits\n\tpacketID       wuint16\n\tsubscriptionID *vbint\n\tUserProperties\n\tfilters []TopicFilter\n}\n\nfunc (p *Subscribe) String() string {\n\treturn withForm(p, fmt.Sprintf(\"%s p%v %s %v bytes\",\n\t\tfirstByte(p.fixed).String(),\n\t\tp.packetID,\n\t\tp.filterString(),\n\t\tp.width(),\n\t))\n}\n\nfunc (p *Subscribe) WellFormed() *Malformed {\n\tif len(p.filters) == 0 {\n\t\treturn newMalformed(p, \"filters\", \"no\")\n\t}\n\tif len(p.filters) > maxFilters {\n\t\treturn newMalformed(p, \"filters\", \"too many\")"}}},
 		{Name: "subscribe-wellformed-rule-on-an-unlisted-field", Rule: "R17.1", Where: "(*Subscribe).WellFormed", Edits: []Edit{{"subscribe.go", "\tfor _, f := range p.filters {\n\t\tif err := f.WellFormed(); err != nil {", "\tfor _, up := range p.UserProperties {\n\t\tif len(up[0]) == 0 {\n\t\t\treturn newMalformed(p, \"user property\", \"empty key\")\n\t\t}\n\t}\n\tfor _, f := range p.filters {\n\t\tif err := f.WellFormed(); err != nil {"}}},
 		{Name: "alias-conjunct-missing", Rule: "R17.1", Where: "(*Publish).WellFormed", Edits: []Edit{{"publish.go", "\tif len(p.topicName) == 0 && p.topicAlias == 0 {", "\tif len(p.topicName) == 0 {"}}},
@@ -459,7 +460,7 @@ func checkSubscribeWF(p *Prog, c *Check) {
 	// shows at 33)
 	nfs := []int64{0, 1, 2, 3, 4, 5}
 	for _, k := range p.cmpConstsFor(fn) {
-		if k > 5 && k <= 300 {
+		if k > 5 && k <= 5000 {
 			nfs = append(nfs, k)
 		}
 	}
